@@ -48,9 +48,12 @@ SPEC = [
     # `packed_centroid` an input; the rows of the cache are centroid tokens
     ("bblean/bitbirch.py", {
         "classes": ["_BFNode"],
-        "methods": ["packed_centroids", "append_subcluster", "update_split_subclusters"],
+        "methods": ["branching_factor", "packed_centroids", "append_subcluster", "update_split_subclusters", "insert_bf_subcluster"],
         "fields": ["_subclusters", "_packed_centroids_buf"],
-        "handles": ["_BFSubcluster"]}),
+        "handles": ["_BFSubcluster"],
+        # calls of methods of other objects (sub-clusters, child nodes) are appended to a log carried like a field:
+        # code of the method, receiver, handle arguments; their results are inputs named after the assigned variable
+        "log_field": "calls_", "handle_lists": ["_subclusters"]}),
     ("bblean/bitbirch.py", {
         "classes": ["BitBirch"],
         "methods": ["__init__", "tolerance", "merge_criterion", "set_merge"],
@@ -83,6 +86,10 @@ OPAQUE_CALLS = {"time.perf_counter": "time_perf_counter"}
 EFFECT_METHODS = {"mkdir"}
 # functions of the loop element whose value is an input: the list of their values over the sequence is a parameter `<name>_of`
 LOOP_EXTERNALS = {"_get_fps_file_num"}
+# methods of handles / child nodes whose calls are logged (code in the log), and external functions whose value is an input
+HANDLE_METHODS = {"merge_subcluster": 1, "insert_bf_subcluster": 2, "update": 4}
+LOGGED_EXTERNALS = {"_split_node": 3}
+EXTERNAL_ASSIGN = {"_jt_sim_arr_vec_packed", "np.argmax"}
 # statements that are dropped (diagnostics only)
 DROPPED_CALLS = {"warnings.warn", "time.sleep"}
 # module-level constants that become parameters
@@ -261,6 +268,13 @@ class Translator:
                 sname = ident(f"{e.value.id}_{e.attr}")
                 cx["symbols"].add(sname)
                 return sname
+            # attribute of an element of a handle list: self._subclusters[i].attr -> an input named after the index variable
+            cls_ = cx.get("cls")
+            if cls_ and isinstance(e.value, ast.Subscript) and flat(e.value.value) and flat(e.value.value).startswith("self.") \
+                    and e.value.value.attr in self.classes[cls_].get("handle_lists", []) and isinstance(e.value.slice, ast.Name):
+                sname = ident(f"{e.value.value.attr}_at_{e.value.slice.id}_{e.attr}")
+                cx["symbols"].add(sname)
+                return sname
             if e.attr == "hasobject":
                 return f"(PV.hasobject {self.expr(e.value, cx)})"
             if isinstance(e.value, (ast.Name, ast.Attribute)) and e.attr in self.dispatch_attrs \
@@ -272,6 +286,15 @@ class Translator:
                 cx["symbols"].add(s)
                 return s
             raise Unsupported(f"attribute {src_of(e)} (line {e.lineno})")
+        # X.shape[0]: the number of rows
+        if isinstance(e, ast.Subscript) and isinstance(e.value, ast.Attribute) and e.value.attr == "shape" \
+                and isinstance(e.slice, ast.Constant) and e.slice.value == 0:
+            return f"(PV.len {self.expr(e.value.value, cx)})"
+        # self.<field>[i] for an index expression
+        if isinstance(e, ast.Subscript) and not isinstance(e.slice, (ast.Slice, ast.Tuple)) and flat(e.value) \
+                and flat(e.value).startswith("self.") and flat(e.value).count(".") == 1 and e.value.attr in cx["selfattrs"] \
+                and src_of(e.slice) != "-1":
+            return f"(PV.getAt {cx['selfattrs'][e.value.attr]} {self.expr(e.slice, cx)})"
         # rows[:k, :] of a two-dimensional buffer held as the list of its rows
         if isinstance(e, ast.Subscript) and isinstance(e.slice, ast.Tuple) and len(e.slice.elts) == 2 \
                 and all(isinstance(x, ast.Slice) and x.lower is None and x.step is None for x in e.slice.elts) \
@@ -498,6 +521,66 @@ class Translator:
         s, rest = body[0], body[1:]
         if isinstance(s, ast.Expr) and isinstance(s.value, ast.Constant) and isinstance(s.value.value, str):
             return self.stmts(rest, cx, kind, end, ind)          # docstring
+        cls_ = cx.get("cls")
+        logf = self.classes[cls_].get("log_field") if cls_ else None
+        if logf and not getattr(s, "_log_done", False):
+            def log_items(items):
+                cur = cx["selfattrs"][logf]
+                for it_ in items:
+                    cur = f"(PV.listAppend {cur} {it_})"
+                return cur
+
+            def hname(a_):
+                return isinstance(a_, ast.Name) and (a_.id in cx.get("handles", set()) or a_.id in cx.get("tokens", set()))
+            call_ = s.value if isinstance(s, (ast.Assign, ast.Expr)) and isinstance(s.value, ast.Call) else None
+            # x = self.<handle list>[i]  : x is a handle
+            if isinstance(s, ast.Assign) and len(s.targets) == 1 and isinstance(s.targets[0], ast.Name) \
+                    and isinstance(s.value, ast.Subscript) and flat(s.value.value) and flat(s.value.value).startswith("self.") \
+                    and s.value.value.attr in self.classes[cls_].get("handle_lists", []):
+                nm = s.targets[0].id
+                cx2 = dict(cx, locals=cx["locals"] | {nm}, handles=set(cx.get("handles", set())) | {nm})
+                return pad + f"let {ident(nm)} := {self.expr(s.value, cx)}\n" \
+                    + self.guarded(pad, ident(nm), cx, self.stmts(rest, cx2, kind, end, ind), ind)
+            # x = <handle>.child : a node token (or None)
+            if isinstance(s, ast.Assign) and len(s.targets) == 1 and isinstance(s.targets[0], ast.Name) \
+                    and isinstance(s.value, ast.Attribute) and hname(s.value.value) and s.value.attr == "child":
+                nm = s.targets[0].id
+                cx2 = dict(cx, locals=cx["locals"] | {nm}, tokens=set(cx.get("tokens", set())) | {nm})
+                return pad + f"let {ident(nm)} := {self.expr(s.value, cx)}\n" + self.stmts(rest, cx2, kind, end, ind)
+            # x = EXTERNAL(...) : the value is an input named x
+            if isinstance(s, ast.Assign) and call_ is not None and flat(call_.func) in EXTERNAL_ASSIGN \
+                    and len(s.targets) == 1 and isinstance(s.targets[0], ast.Name):
+                nm = s.targets[0].id
+                cx["symbols"].add(ident(nm))
+                cx2 = dict(cx, params=cx["params"] | {nm})
+                return self.stmts(rest, cx2, kind, end, ind)
+            # a, b = LOGGED_EXTERNAL(token) : logged; the results are inputs (handles)
+            if isinstance(s, ast.Assign) and call_ is not None and flat(call_.func) in LOGGED_EXTERNALS and len(s.targets) == 1 \
+                    and isinstance(s.targets[0], ast.Tuple) and all(isinstance(x, ast.Name) for x in s.targets[0].elts) \
+                    and all(hname(a_) for a_ in call_.args) and not call_.keywords:
+                names = [x.id for x in s.targets[0].elts]
+                for nm in names:
+                    cx["symbols"].add(ident(nm))
+                new = log_items([f"(PV.int {LOGGED_EXTERNALS[flat(call_.func)]})"] + [ident(a_.id) for a_ in call_.args])
+                lean = "self_" + logf
+                cx2 = dict(cx, params=cx["params"] | set(names), handles=set(cx.get("handles", set())) | set(names),
+                           selfattrs=dict(cx["selfattrs"], **{logf: lean}))
+                return pad + f"let {lean} := {new}\n" + self.stmts(rest, cx2, kind, end, ind)
+            # [x =] <handle or token>.<logged method>(args) : logged (receiver and handle arguments); a result is an input named x
+            if call_ is not None and isinstance(call_.func, ast.Attribute) and call_.func.attr in HANDLE_METHODS \
+                    and hname(call_.func.value) and not call_.keywords:
+                items = [f"(PV.int {HANDLE_METHODS[call_.func.attr]})", ident(call_.func.value.id)] \
+                    + [ident(a_.id) for a_ in call_.args if hname(a_)]
+                new = log_items(items)
+                lean = "self_" + logf
+                cx2 = dict(cx, selfattrs=dict(cx["selfattrs"], **{logf: lean}))
+                if isinstance(s, ast.Assign):
+                    if not (len(s.targets) == 1 and isinstance(s.targets[0], ast.Name)):
+                        raise Unsupported(f"assignment {src_of(s)} (line {s.lineno})")
+                    nm = s.targets[0].id
+                    cx["symbols"].add(ident(nm))
+                    cx2["params"] = cx["params"] | {nm}
+                return pad + f"let {lean} := {new}\n" + self.stmts(rest, cx2, kind, end, ind)
         # x = []  : a local list (built by append, returned or carried through a loop)
         if isinstance(s, ast.Assign) and len(s.targets) == 1 and isinstance(s.targets[0], ast.Name) \
                 and isinstance(s.value, ast.List) and not s.value.elts:
@@ -871,6 +954,9 @@ class Translator:
                         mutating = True
                     if n.func.attr in ("extend", "append") and root_name(n.func.value) == "self":
                         mutating = True
+                    if self.classes[cls].get("log_field") and n.func.attr in HANDLE_METHODS and isinstance(n.func.value, ast.Name) \
+                            and n.func.value.id != "self":
+                        mutating = True
         uses_effects = any(isinstance(n, ast.Call) and flat(n.func) in EFFECTS for n in ast.walk(fn)) \
             or any(isinstance(n, ast.With) for n in ast.walk(fn))
         if uses_effects:
@@ -1088,6 +1174,10 @@ class Translator:
                 c["fields"] = list(spec["fields"])
             c["partial_init"] = bool(spec.get("partial_init"))
             c["handles"] = list(spec.get("handles", []))
+            c["handle_lists"] = list(spec.get("handle_lists", []))
+            c["log_field"] = spec.get("log_field")
+            if c["log_field"]:
+                c["fields"] = list(c["fields"]) + [c["log_field"]]
             c["consts"] = {n.targets[0].id: n.value.value for n in cdef.body
                            if isinstance(n, ast.Assign) and isinstance(n.targets[0], ast.Name)
                            and isinstance(n.value, ast.Constant) and isinstance(n.value.value, str)}
